@@ -72,13 +72,13 @@ def case_tone(c):
     rq = sv.ComplexQuantizer(target_fwhm=32, num_bits=8)
     bsz = T * nc * 2 * npol
     be = sv.RawVoltageBackend(ant, digitizer=dig, filterbank=fb, requantizer=rq, start_chan=sc, num_chans=nc,
-                              block_size=bsz, blocks_per_file=1, num_subblocks=2)
+                              block_size=bsz, blocks_per_file=2 if c.get('multi') else 1, num_subblocks=2)
     stem = os.path.join(engine.workdir(), 'c07_%s' % engine.sha(c))
     for fn in guppi.list_files(stem):
         os.remove(fn)
     res = {'viol': viol}
     try:
-        be.record(output_file_stem=stem, num_blocks=1, length_mode='num_blocks', header_dict={}, digitize=c['digitize'],
+        be.record(output_file_stem=stem, num_blocks=3 if c.get('multi') else 1, length_mode='num_blocks', header_dict={}, digitize=c['digitize'],
                   load_template=False, verbose=False)
         blk = guppi.parse_file(stem + '.0000.raw')[0]
     except Exception as e:
@@ -147,6 +147,24 @@ def case_tone(c):
                 or bool(rp['ascending']) != bool(asc):
             V('raw_params', 'get_raw_params -> fch1=%r chan_bw=%r ascending=%r; antenna has %r, %r, %r'
               % (rp['fch1'], rp['chan_bw'], rp['ascending'], fch1, sgn * chan_bw, asc), site='raw_utils.get_raw_params')
+        # (sub-box `multi`) three blocks over two files: EVERY block's own header locates the (non-drifting) tone, not only the
+        # first header of the first file (seeded change C07-33: a unit conversion re-applied to the cards block after block)
+        if c.get('multi') and not viol:
+            allb = [(os.path.basename(fn), bi_, b_) for fn in sorted(guppi.list_files(stem)) for bi_, b_ in enumerate(guppi.parse_file(fn))]
+            if len(allb) != 3:
+                V('multi_blocks', 'three blocks requested over two files, %d found' % len(allb))
+            for (fn_, bi_, b_) in allb:
+                hb = b_['header']
+                of_, cb_, on_ = float(hb['OBSFREQ']) * 1e6, float(hb['CHAN_BW']) * 1e6, int(hb['OBSNCHAN'])
+                d_ = guppi.decode_payload(b_['payload'], 1, on_, npol, 8)[0]
+                pwb = np.stack([fine(d_[i, :, tone_streams[0]], N) for i in range(on_)])
+                i_, k_ = np.unravel_index(int(np.argmax(pwb[:, 1, :])), (on_, N))
+                f_peak = of_ + (i_ - (on_ - 1) / 2) * cb_ + (k_ - N / 2) * cb_ / N
+                judged += 1
+                if abs(f_peak - f0) > abs(chan_bw) / N + 1e-9 * abs(f0) or abs(float(hb['TBIN']) - tbin) > 1e-12 * tbin:
+                    V('tone_misplaced_later_block', '%s block %d: the header of this block places the tone at %.6f Hz, injected at %.6f Hz '
+                      '(OBSFREQ=%r CHAN_BW=%r OBSNCHAN=%r TBIN=%r)' % (fn_, bi_, f_peak, f0, hb['OBSFREQ'], hb['CHAN_BW'], hb['OBSNCHAN'], hb['TBIN']))
+                    break
         # a SECOND recording from the same backend and antenna: the antenna's timeline continues, so a chirp is found
         # where f_start + drift*t puts it at the (later) time of that recording -- not where it started
         if c.get('second_recording') and not second and not viol:
@@ -397,6 +415,10 @@ def run(ctx):
     # a second recording from the same antenna for slowly drifting tones (the chirp must still be inside its channel)
     cases = cases + [dict(b, second_recording=True) for b in cases
                      if not b.get('second') and b['drift'] in (1, -1) and b['offset'] in (1, -1, 0.37) and b['digitize']]
+    # every block of a three-block, two-file recording is located through its own header (pure tones)
+    cases = cases + [dict(b, multi=True) for b in cases
+                     if not b.get('second') and not b.get('second_recording') and not b.get('form') and b['drift'] == 0
+                     and b['offset'] in (1, 0.37) and b['digitize']]
     ctx.pmap(case_tone, cases)
     red = []
     for N in (1, 2, 4, 8):
